@@ -224,6 +224,13 @@ def corpus():
     yield {"op": "perase", "tier": {"k": "P", "name": "p", "es": [[3.0, "p"]], "lo": 0.0, "hi": 10.0}, "a": -7.0, "b": -2.0,
            "mode": "truncate", "shrink": True, "grid": True}
     yield {"op": "pdelete", "tier": pt, "entry": [1.0, "nope"], "grid": True}                                        # known finding
+    # an inserted interval that becomes the only entry and sticks out of the span on BOTH sides: both ends must grow
+    e2 = {"k": "I", "name": "B", "es": [], "lo": 3.5, "hi": 10.0}
+    for mode in ("error", "replace", "merge"):
+        yield {"op": "iinsert", "tier": e2, "entry": [2.75, 11.0, "n"], "mode": mode, "report": "silence", "grid": True}
+    one = {"k": "I", "name": "B", "es": [[4.0, 5.0, "x"]], "lo": 3.5, "hi": 10.0}
+    for mode in ("replace", "merge"):
+        yield {"op": "iinsert", "tier": one, "entry": [2.75, 11.0, "n"], "mode": mode, "report": "silence", "grid": True}
     # zero-length / reversed intervals must be rejected by insertEntry, not stored
     for mode in ("error", "replace", "merge"):
         yield {"op": "iinsert", "tier": it, "entry": [2.5, 2.5, "z"], "mode": mode, "report": "silence", "grid": True}
